@@ -60,6 +60,15 @@ Theorem deque_spec : forall (T : Type) c (xs l h : list T),
 Proof. exact @dq_extend_spec. Qed.
 Print Assumptions deque_spec.
 
+(* the deque never exceeds its maxlen, has exactly min(c, everything appended) entries, and holds only appended experiences *)
+Theorem deque_bounded : forall (T : Type) c (xs l h : list T),
+  l = lastn c h ->
+  length (dq_extend c l xs) = Nat.min c (length h + length xs) /\
+  length (dq_extend c l xs) <= c /\
+  (forall x, In x (dq_extend c l xs) -> In x (h ++ xs)).
+Proof. exact @dq_extend_bounded. Qed.
+Print Assumptions deque_bounded.
+
 Theorem reorganize_spec : forall (X : Type) (args : list (@field X)) e fi f a v,
   e < num_entries args -> nth_error args fi = Some f -> In (a, v) f ->
   exists ex sf, nth_error (reorganize args) e = Some ex /\ nth_error ex fi = Some sf /\ In (a, at_env e v) sf.
